@@ -401,6 +401,30 @@ def box(tier, classes=None, N=None, multipass=True):
                         yield {"cls": "HRevolve", "n": n, "s": s, "d": d, "c8": list(c8), "passes": 1}
 
 
+LARGE_N = (256, 257, 300)
+
+
+def large_n_probes(tier):
+    """A few configs per class around CPython's small-int cache boundary (256/257) and beyond
+    every n the pinned suite uses (250): identity-vs-equality slips, table sizes, recursion."""
+    ns = LARGE_N if tier == "quick" else LARGE_N + (401, 512, 513)
+    for n in ns:
+        yield {"cls": "None", "n": n, "passes": 0}
+        yield {"cls": "SingleMemory", "n": n, "passes": 2}
+        yield {"cls": "SingleDisk", "move": True, "n": n, "passes": 1}
+        yield {"cls": "SingleDisk", "move": False, "n": n, "passes": 2}
+        for tr in ("maximum", "revolve"):
+            yield {"cls": "Multistage", "n": n, "ram": 2, "disk": 1, "traj": tr, "passes": 1}
+        yield {"cls": "Multistage", "n": n, "ram": 0, "disk": 6, "traj": "maximum", "passes": 1}
+        yield {"cls": "Mixed", "n": n, "s": 3, "storage": "RAM", "passes": 1}
+        yield {"cls": "TwoLevel", "period": 7, "b": 2, "storage": "RAM", "traj": "maximum", "n": n, "passes": 2}
+        yield {"cls": "TwoLevel", "period": 16, "b": 3, "storage": "DISK", "traj": "revolve", "n": n, "passes": 1}
+        yield {"cls": "Revolve", "n": n, "s": 3, "c8": [8, 8, 16, 16], "passes": 1}
+        yield {"cls": "DiskRevolve", "n": n, "s": 2, "c8": [8, 16, 16, 8], "passes": 1}
+        yield {"cls": "PeriodicDiskRevolve", "n": n, "s": 2, "c8": [8, 8, 16, 16], "passes": 1}
+        yield {"cls": "HRevolve", "n": n, "s": 2, "d": 2, "c8": [8, 8, 16, 16], "passes": 1}
+
+
 # --------------------------------------------------------------------------
 # Validity (documented domain), used by the shrinker and by C17
 # --------------------------------------------------------------------------
